@@ -21,6 +21,7 @@ func ValidateEvolution(latest *Environment, predecessors []*Environment, version
 		ns.DefinitionChanges = make(map[string][]DefinitionChange)
 		for _, p := range ns.Protocols {
 			p.Versions = make(map[string]*ProtocolChange)
+			p.PreviousSchemas = make(map[string]string)
 		}
 	}
 
@@ -28,6 +29,18 @@ func ValidateEvolution(latest *Environment, predecessors []*Environment, version
 	var allWarnings []string
 	for i, predecessor := range predecessors {
 		log.Info().Msgf("Resolving changes from version %s", versionLabels[i])
+
+		// Record the schema every protocol had in this version, before the old
+		// definitions are renamed below
+		for _, p := range latest.GetTopLevelNamespace().Protocols {
+			for _, oldNs := range predecessor.Namespaces {
+				for _, oldProt := range oldNs.Protocols {
+					if oldProt.GetQualifiedName() == p.GetQualifiedName() {
+						p.PreviousSchemas[versionLabels[i]] = GetProtocolSchemaString(oldProt, predecessor.SymbolTable)
+					}
+				}
+			}
+		}
 
 		definitionChanges, protocolChanges := resolveAllChanges(latest, predecessor)
 
